@@ -19,6 +19,7 @@ RULE = (
     "permutation, reflection, 90-degree rotation), general rotations (guard-banded), field shift/scale, masked/no_data/NaN vs "
     "removed points, structured vs point list, seeded sub-sampling, directions rotated with the coordinates, angles vs vectors, "
     "geo_scale units, standard bins, trend/mean/normalizer preprocessing; discarded = a pair distance within 1e-9 of a bin edge"
+    " no_data markers incl. 0; sub-sampling with automatic bins."
 )
 ASSUMPTIONS = ["relations are checked between two executions of the real estimator; only the transformation is computed by the harness"]
 LEVEL_TEXT = (
